@@ -172,11 +172,16 @@ func NewDeviceCode(nBytes int) (string, error) {
 }
 
 func NewUserCode(charSet []rune, charAmount, dashInterval int) (string, error) {
+	if len(charSet) == 0 {
+		return "", errors.New("user code character set is empty")
+	}
 	var buf strings.Builder
+	size := charAmount
 	if dashInterval > 0 {
-		buf.Grow(charAmount + charAmount/dashInterval - 1)
-	} else {
-		buf.Grow(charAmount)
+		size = charAmount + charAmount/dashInterval - 1
+	}
+	if size > 0 {
+		buf.Grow(size)
 	}
 
 	max := big.NewInt(int64(len(charSet)))
